@@ -56,6 +56,9 @@ type vaBad struct {
 	Exp   interface{} `json:"exp"`
 	Got   interface{} `json:"got"`
 	Ref   interface{} `json:"ref,omitempty"` // same field of the reference variant (no slab, natural representation, positions)
+	// the same reference call on the OTHER representation of the same text (runes); set only when it differs from Ref:
+	// then the result depends on how the text is held
+	Ref2 interface{} `json:"ref2,omitempty"`
 }
 
 // a FuzzyMatchV2 result that differs from the alignment TLC predicted (which of several valid alignments is reported
@@ -116,11 +119,14 @@ func vaRunCase(c *vaCase, t *vaTable, ss *vaSlabSet, fields string, fills []stri
 	bad := []vaBad{}
 	judge := []vaJudge{}
 	calls := 0
-	refs := map[string]vaRes{} // reference variant per (matcher, direction)
+	refs := map[string]vaRes{}  // reference variant per (matcher, direction)
+	refs2 := map[string]vaRes{} // ... on the runes representation
 	for _, kind := range t.Kinds {
 		for _, fwd := range []bool{true, false} {
 			chars := reps[0].chars
 			refs[fmt.Sprint(kind, fwd)] = vaCall(kind, c.Cs, c.Norm, fwd, &chars, pat, true, nil)
+			chars2 := reps[1].chars
+			refs2[fmt.Sprint(kind, fwd)] = vaCall(kind, c.Cs, c.Norm, fwd, &chars2, pat, true, nil)
 		}
 	}
 	kidx := map[string]int{}
@@ -155,11 +161,17 @@ func vaRunCase(c *vaCase, t *vaTable, ss *vaSlabSet, fields string, fills []stri
 							ref := refs[fmt.Sprint(expKind, fwd)]
 							refOf := map[string]interface{}{"panic": ref.Panic, "matched": ref.S >= 0, "start": ref.S, "end": ref.E,
 								"pos": ref.Pos, "score": ref.Sc}
+							ref2 := refs2[fmt.Sprint(expKind, fwd)]
+							ref2Of := map[string]interface{}{"panic": ref2.Panic, "matched": ref2.S >= 0, "start": ref2.S, "end": ref2.E,
+								"pos": ref2.Pos, "score": ref2.Sc}
 							add := func(field string, e, g interface{}) {
 								if len(bad) < 12 {
-									b := vaBad{vaFuncNames[kind], kind, fwd, rp.name, wp, ss.names[si], fill, field, e, g, nil}
+									b := vaBad{vaFuncNames[kind], kind, fwd, rp.name, wp, ss.names[si], fill, field, e, g, nil, nil}
 									if fields == "all" {
 										b.Ref = refOf[field]
+										if fmt.Sprint(ref2Of[field]) != fmt.Sprint(refOf[field]) {
+											b.Ref2 = ref2Of[field]
+										}
 									}
 									bad = append(bad, b)
 								}
